@@ -4,7 +4,7 @@ CONSTANTS
   MaxPerFile = 2
   Emit = TRUE
   Forms = {"rel", "dot", "root", "abs", "schemerel", "up"}
-  Medias = {"", "print", "tv", "all and (color)", "not all"}
+  Medias = {"", "print", "all and (color)"}
 INVARIANT RelToInvertsResolve
 INVARIANT SpecFlattenMeetsContract
 INVARIANT EmitWorld
